@@ -1,9 +1,9 @@
 (** C18 — comparison series depend only on the result set; bootstrap summaries
     are sane; date normalisation.  Statements only; proofs are in
-    Proofs/{Series,SeriesWitness,Bootstrap,Dates}.v. *)
+    Proofs/{Series,SeriesPerm,SeriesWitness,Bootstrap,Dates,DatesOrder}.v. *)
 From Coq Require Import Permutation.
 From Perf Require Import Base.Bytes Base.B64 Model.Dates Model.Bootstrap Model.Series
-     Proofs.Dates Proofs.Bootstrap Proofs.Series Proofs.SeriesWitness.
+     Proofs.Dates Proofs.DatesOrder Proofs.Bootstrap Proofs.Series Proofs.SeriesPerm Proofs.SeriesWitness.
 Local Open Scope Z_scope.
 
 (** * dates *)
@@ -17,11 +17,27 @@ Theorem C18_normalize_defined_iff : forall s, normalize_date s <> None <-> denot
 Proof. exact normalize_defined_iff. Qed.
 Print Assumptions C18_normalize_defined_iff.
 
-(* ABSENT (tested only, prop_ok of every dates case):
-   normalized_sorts_chronologically : forall i1 i2,
-     -62167219200 <= fst i1 < 253402300800 -> 0 <= snd i1 < 10^9 -> (same for i2) ->
-     bcmp (format_instant i1) (format_instant i2) = instant_cmp i1 i2.
-   Missing: monotonicity of civil_from_days and the fixed-width digit comparison lemmas. *)
+(** lexicographic (bytewise) order of normalised strings = chronological order,
+    for instants whose UTC year has four digits (0000-01-01T00:00:00Z up to
+    9999-12-31T23:59:59.999999999Z) *)
+Theorem C18_normalized_sorts_chronologically : forall i1 i2,
+  instant_inrange i1 -> instant_inrange i2 ->
+  bcmp (format_instant i1) (format_instant i2) = instant_cmp i1 i2.
+Proof. exact normalized_sorts_chronologically. Qed.
+Print Assumptions C18_normalized_sorts_chronologically.
+
+Theorem C18_normalize_sorts : forall s1 s2 i1 i2 n1 n2,
+  denotes s1 = Some i1 -> denotes s2 = Some i2 -> instant_inrange i1 -> instant_inrange i2 ->
+  normalize_date s1 = Some n1 -> normalize_date s2 = Some n2 ->
+  bcmp n1 n2 = instant_cmp i1 i2.
+Proof. exact normalize_sorts. Qed.
+Print Assumptions C18_normalize_sorts.
+
+(** distinct instants have distinct normalised strings *)
+Theorem C18_normalize_injective : forall i1 i2,
+  instant_inrange i1 -> instant_inrange i2 -> format_instant i1 = format_instant i2 -> i1 = i2.
+Proof. exact normalize_injective. Qed.
+Print Assumptions C18_normalize_injective.
 
 (** * series: one (unit, table), all orders of visiting the maps *)
 
@@ -72,15 +88,29 @@ Theorem C18_builder_perm_invariant : forall rs rs',
 Proof. exact builder_perm_invariant. Qed.
 Print Assumptions C18_builder_perm_invariant.
 
-(* PARTIAL: series_perm_invariant is proved in the two halves above; the
-   composition is not proved:
-     series_perm_invariant : forall combine rs rs' en en',
-       WFset rs -> Permutation rs rs' -> valid_enum (adds rs) en -> valid_enum (adds rs') en' ->
-       canon (all_comparison_series combine (adds rs) en) = canon (all_comparison_series combine (adds rs') en').
-   Missing: (1) hashToOrder of a permuted set (b_h2o, under wf_hash_stamp);
-   (2) the glue: the visit lists table_contribs of (adds rs, en) and (adds rs', en') are
-   permutations of each other up to value order, and WFset gives pair_fun / dates_inj for them.
-   The whole statement is checked on every generated well-formed result set (prop_ok). *)
+(** the comparison series of a well-formed result set depend on neither the
+    order in which results were added nor the order in which the Go maps are
+    enumerated (sample order inside denominator-less cells, which the code
+    leaves unsorted, is not part of the observable: [canon]) *)
+Theorem C18_series_perm_invariant : forall combine rs rs' en en',
+  WFset rs -> Permutation rs rs' ->
+  valid_enum (adds rs) en -> valid_enum (adds rs') en' ->
+  canon (all_comparison_series combine (adds rs) en) =
+  canon (all_comparison_series combine (adds rs') en').
+Proof. exact series_perm_invariant. Qed.
+Print Assumptions C18_series_perm_invariant.
+
+(** valid enumerations exist: the one in order of first insertion, which is the
+    one the correspondence run evaluates the model with *)
+Theorem C18_first_enum_valid : forall rs, valid_enum (adds rs) (first_enum rs).
+Proof. exact first_enum_valid. Qed.
+Print Assumptions C18_first_enum_valid.
+
+(** hashToOrder of a result set whose numerator hashes have one series stamp each *)
+Theorem C18_hash_to_order : forall rs h, hash_stamp rs ->
+  b_h2o (adds rs) [h] = option_map r_ser (find (numh h) rs).
+Proof. exact h2o_of. Qed.
+Print Assumptions C18_hash_to_order.
 
 (** each clause of WFset is necessary: a permuted order changes the outcome *)
 Theorem C18_order_dependent_without_hash_stamp_refuted :
